@@ -7,7 +7,7 @@ use vcommon::{guard, hex, json, Args, Report, Rng, Worker};
 use vwf::{BaseFut, Fut};
 use winter_air::proof::{Context, Proof};
 use winter_air::{Air, TraceInfo};
-use winter_crypto::hashers::{Blake3_256, Rp64_256, Sha3_256};
+use winter_crypto::hashers::{Blake3_256, Rp62_248, Rp64_256, RpJive64_256, Sha3_256};
 use winter_crypto::{BatchMerkleProof, ElementHasher, MerkleTree};
 use winter_math::fields::{f128, f62, f64 as f64m, CubeExtension, QuadExtension};
 use winter_math::FieldElement;
@@ -157,6 +157,17 @@ where
             return;
         },
     };
+    // a different nonce that happens to yield the same position set is a legitimate protocol event
+    // when there is no grinding and the position space is tiny: such proofs are not judged on
+    // nonce-only edits (same rule as the field-level nonce edits)
+    if decoded.pow_nonce != cx.h.proof.pow_nonce && !nonce_edits_judgeable(&cx.h.proof) {
+        let mut same_but_nonce = decoded.clone();
+        same_but_nonce.pow_nonce = cx.h.proof.pow_nonce;
+        if same_but_nonce == cx.h.proof {
+            cx.rep.count("skipped_inherent:nonce");
+            return;
+        }
+    }
     let modes = [("OptionSet", AcceptableOptions::OptionSet(vec![cx.h.options.clone()])), ("MinConjecturedSecurity", AcceptableOptions::MinConjecturedSecurity(0))];
     for (mname, acc) in modes {
         match verify::<B, H>(decoded.clone(), &cx.h.spec, &acc) {
@@ -174,6 +185,12 @@ where
             VerifyOutcome::Panic(_) => cx.rep.count("outcome:verify-panic (C05)"),
         }
     }
+}
+
+/// grinding >= 1, or so many (position set) possibilities that two nonces agreeing is not a chance event
+fn nonce_edits_judgeable(p: &Proof) -> bool {
+    let lde = (p.trace_info().length() * p.options().blowup_factor()) as f64;
+    p.options().grinding_factor() >= 1 || lde.log2() * p.num_unique_queries as f64 >= 40.0
 }
 
 fn first_diff_offset(a: &[u8], b: &[u8]) -> usize {
@@ -297,12 +314,19 @@ where
         judge::<B, E, H>(cx, "field:unique-query-count", &p.to_bytes());
     }
     // nonce: only when another nonce cannot plausibly give the same position set
-    let lde = (ti.length() * opts.blowup_factor()) as f64;
-    if opts.grinding_factor() >= 1 || lde.log2() * orig.num_unique_queries as f64 >= 40.0 {
-        for d in [1u64, 2, 1 << 32] {
+    if nonce_edits_judgeable(&orig) {
+        // +1, +2, +2^32, and + the field modulus (an integer reduced mod p before hashing would alias)
+        let mut deltas = vec![1u64, 2, 1 << 32];
+        if B::SPEC.p < 1u128 << 64 {
+            deltas.push(B::SPEC.p as u64);
+            deltas.push((B::SPEC.p as u64).wrapping_mul(2));
+        }
+        for d in deltas {
             let mut p = orig.clone();
             p.pow_nonce = p.pow_nonce.wrapping_add(d);
-            judge::<B, E, H>(cx, "field:nonce", &p.to_bytes());
+            if p.pow_nonce != orig.pow_nonce {
+                judge::<B, E, H>(cx, "field:nonce", &p.to_bytes());
+            }
         }
     } else {
         cx.rep.count("skipped_inherent:nonce");
@@ -380,7 +404,7 @@ pub fn run(args: &Args) {
         let exhaustive = thorough && case % 3 == 0;
         macro_rules! go {
             ($b:ty, $h:ty, $name:expr) => {{
-                if let Some(h) = make::<$b, $h>(&mut rng, case / 5) {
+                if let Some(h) = make::<$b, $h>(&mut rng, case / 7) {
                     match h.inst.opts.ext {
                         0 => run_one::<$b, $b, $h>(&mut rep, &mut rng, &h, $name, exhaustive, budget),
                         1 => run_one::<$b, QuadExtension<$b>, $h>(&mut rep, &mut rng, &h, $name, exhaustive, budget),
@@ -393,11 +417,13 @@ pub fn run(args: &Args) {
             (@cubic f128::BaseElement, $h:ty, $name:expr, $hh:ident) => {{ let _ = $hh; }};
             (@cubic $b:ty, $h:ty, $name:expr, $hh:ident) => {{ run_one::<$b, CubeExtension<$b>, $h>(&mut rep, &mut rng, &$hh, $name, exhaustive, budget) }};
         }
-        match case % 5 {
+        match case % 7 {
             0 => go!(F64, Blake3_256<F64>, "f64/Blake3_256"),
             1 => go!(F62, Blake3_256<F62>, "f62/Blake3_256"),
             2 => go!(f128::BaseElement, Sha3_256<F128>, "f128/Sha3_256"),
             3 => go!(F64, Rp64_256, "f64/Rp64_256"),
+            4 => go!(F64, RpJive64_256, "f64/RpJive64_256"),
+            5 => go!(F62, Rp62_248, "f62/Rp62_248"),
             _ => go!(F64, Sha3_256<F64>, "f64/Sha3_256"),
         }
     }
